@@ -127,6 +127,17 @@ def aggregate_order(chk, rid):
     if fin is None or step is None:
       raise AnalysisError('aggregate class %s lacks step/finalize' % cname)
     kind = result_kind(ci)
+    if sqlname not in ORDER_EXEMPT:
+      bad = data_truthiness(ci)
+      # de-duplicate nested reports of the same operand
+      seen = set()
+      bad = [b for b in bad if not (b[2] in seen or seen.add(b[2]))]
+      chk.ob(rid, not bad, None,
+             'aggregate %s: no truthiness test on data values (0 and "" are values)' % sqlname,
+             'step/finalize decide by the truthiness of %s: a row whose value '
+             'is 0 (or an empty string) is treated as absent, so the result '
+             'depends on where that row arrives' % ', '.join('`%s`' % b[2] for b in bad[:3]),
+             fi=bad[0][0] if bad else step)
     if sqlname in ORDER_EXEMPT:
       chk.ob(rid, True, None, 'aggregate %s (%s) may depend on arrival order' % (sqlname, cname),
              ORDER_EXEMPT[sqlname], fi=fin, nontrivial=False)
@@ -155,6 +166,72 @@ def aggregate_order(chk, rid):
              'the aggregate is not among the exempt ones' % kind, fi=step)
 
 
+def data_truthiness(ci, exempt_params=('self', 'limit')):
+  """Truthiness tests on data values inside step/finalize: `if v`, `not v`,
+  `a and b`, `a or b` where the operand is a step argument or an element read
+  from the accumulator.  Zero, 0.0 and '' are values."""
+  bad = []
+  for mname in ('step', 'finalize'):
+    fi = ci.methods.get(mname)
+    if fi is None:
+      continue
+    data = set(p for p in fi.params if p not in exempt_params)
+    changed = True
+    while changed:
+      changed = False
+      for x in walk_local(fi.node):
+        if isinstance(x, ast.Assign) and len(x.targets) == 1 and isinstance(x.targets[0], ast.Name):
+          if x.targets[0].id not in data and _is_data(x.value, data):
+            data.add(x.targets[0].id)
+            changed = True
+
+    def operands(e):
+      if isinstance(e, ast.BoolOp):
+        out = []
+        for v in e.values:
+          out += operands(v)
+        return out
+      if isinstance(e, ast.UnaryOp) and isinstance(e.op, ast.Not):
+        return operands(e.operand)
+      return [e]
+    tests = []
+    for x in walk_local(fi.node):
+      if isinstance(x, (ast.If, ast.While)):
+        tests.append(x.test)
+      elif isinstance(x, ast.IfExp):
+        tests.append(x.test)
+      elif isinstance(x, ast.BoolOp):
+        tests.append(x)
+      elif isinstance(x, ast.UnaryOp) and isinstance(x.op, ast.Not):
+        tests.append(x)
+      elif isinstance(x, ast.Assert):
+        tests.append(x.test)
+    for t in tests:
+      for o in operands(t):
+        if isinstance(o, (ast.Compare, ast.Call, ast.Constant)):
+          continue
+        if _is_data(o, data, strict=True):
+          bad.append((fi, o, norm(o, 50)))
+  return bad
+
+
+def _is_data(e, data, strict=False):
+  """Expression denotes a data value: a data name, or an element read from
+  self.result (self.result[i], self.result[i][j])."""
+  if isinstance(e, ast.Name):
+    return e.id in data
+  if isinstance(e, ast.Subscript):
+    b = e.value
+    while isinstance(b, ast.Subscript):
+      b = b.value
+    return dotted(b) == 'self.result' or (isinstance(b, ast.Name) and b.id in data)
+  if isinstance(e, ast.BoolOp) and not strict:
+    return any(_is_data(v, data) for v in e.values)
+  if isinstance(e, ast.IfExp) and not strict:
+    return _is_data(e.body, data) or _is_data(e.orelse, data)
+  return False
+
+
 def iterates_sorted(repo, fq, what):
   fi = repo.func(fq)
   for x in walk_local(fi.node):
@@ -165,8 +242,70 @@ def iterates_sorted(repo, fq, what):
   return False
 
 
+def fresh_names(chk, rid):
+  """AllocateTable: the name returned is the name whose uniqueness was
+  decided and the name recorded as taken (abstract interpretation: every
+  path)."""
+  from sa.absint import Const, Interp, State, Sym
+  from sa import strshape
+  repo = chk.repo
+  fi = repo.func('rule_translate.NamesAllocator.AllocateTable')
+  recorded = []
+
+  def call(node, st, interp):
+    t = call_tail(node)
+    if t == 'add' and 'allocated_tables' in norm(node.func):
+      st.effects.append(('taken', interp.value(node.args[0], st)))
+      return Const(None)
+    if t == 'join':
+      return Sym('SUFFIX')
+    return strshape.call_hook(node, st, interp)
+
+  def compare(op, l, r, st):
+    if isinstance(op, (ast.NotIn, ast.In)) and isinstance(r, Sym) and \
+        r.text.endswith('allocated_tables'):
+      st.effects.append(('tested', l, isinstance(op, ast.NotIn)))
+    return NotImplemented
+
+  def augassign(node, cur, v, st, interp):
+    return NotImplemented
+  it = Interp(fi.node, dict(call=call, compare=compare, expr=strshape.expr_hook))
+  outs = [o for o in it.run(State(env={'hint_for_user': Sym('HINT')})) if o.kind == 'return']
+  if not outs:
+    raise AnalysisError('AllocateTable: no return path')
+  n_bad = []
+  for o in outs:
+    ret = o.value
+    taken = [e[1] for e in o.state.effects if e[0] == 'taken']
+    tested = [e[1] for e in o.state.effects if e[0] == 'tested']
+    rt = strshape.as_str(ret).text()
+    same_taken = bool(taken) and strshape.as_str(taken[-1]).text() == rt
+    numbered = 'table_num' in rt
+    decided = numbered or any(strshape.as_str(t).text() == rt for t in tested)
+    if not (same_taken and decided):
+      n_bad.append('returns `%s`, recorded `%s`, uniqueness decided on `%s` (%s)' % (
+          rt, [strshape.as_str(t).text() for t in taken],
+          [strshape.as_str(t).text() for t in tested], '; '.join(o.state.trace)))
+  chk.more_evaluations += len(outs)
+  chk.ob(rid, not n_bad, None,
+         'AllocateTable returns the name it tested / numbered and records exactly that name (%d paths)' % len(outs),
+         'on a path %s: two tables of one query can get the same alias' % (n_bad[0] if n_bad else ''),
+         fi=fi)
+  av = repo.func('rule_translate.NamesAllocator.AllocateVar')
+  inc = [x for x in walk_local(av.node) if isinstance(x, ast.AugAssign) and
+         isinstance(x.op, ast.Add) and 'aux_var_num' in norm(x.target)]
+  fmt = [x for x in walk_local(av.node) if isinstance(x, ast.BinOp) and isinstance(x.op, ast.Mod)
+         and 'aux_var_num' in norm(x.right)]
+  chk.ob(rid, bool(inc) and bool(fmt), None, 'AllocateVar numbers variables with a counter it increments',
+         'variable names can repeat', fi=av)
+
+
 def run(chk):
   repo = chk.repo
+  chk.rule('C07-R3', 'fresh names: every table alias handed out is unique in '
+           'its compilation - the returned name is the one tested or '
+           'numbered, and the one recorded', min_instances=2)
+  fresh_names(chk, 'C07-R3')
   chk.rule('C07-R1', 'aggregate UDFs return the same value for every arrival '
            'order of their rows (List element order, ANY_VALUE and ties of '
            'ArgMin/ArgMax excepted)', min_instances=5)
